@@ -357,6 +357,12 @@ def run(chk):
     flagsets = [["--keep_glyph_names"], ["--keep_glyph_names", "--bitmaps"], [], ["--keep_glyph_names"]]
     for k, sc in enumerate(ok_recs[: (4 if quick else 40)]):
         jobs.append(("thirdparty", k, sc, flagsets[k % 4], 1 if k % 3 else 0))
+    # layout tables under the SVG donation's glyph reordering: colour glyphs whose names are NOT in sorted order carry
+    # mark-attachment anchors and kerning (coverage-indexed arrays that must stay paired when the order changes)
+    for k, order in enumerate([["zeta", "plainA", "alpha", "plainB", "mid", "markacc"], ["mid", "zeta", "plainA", "alpha", "markacc"],
+                               ["plainA", "plainB", "zz", "yy", "xx", "markacc"]][: (2 if quick else 3)]):
+        sc = {"target": [".notdef"] + order, "colour": [g for g in order if not g.startswith("plain") and g != "markacc"]}
+        jobs.append(("thirdparty-marks", k, sc, ["--keep_glyph_names"], 1))
     # arbitrary supported paint graphs: the trees ColrToSvg.tla enumerates (nested transforms, references, groups)
     tres = common.run_tlc("ColrToSvg", "ColrToSvg.cfg", timeout=900, coverage=False)
     chk.add_tlc(tres, "ColrToSvg.cfg (paint graphs for the third-party fonts)")
